@@ -66,10 +66,11 @@ const (
 	MMix                      // strings: order-sensitive, same length as the delta
 	MRecSum                   // records: A += d.A, B = v.B + d.B (changes the length)
 	MRecMix                   // records: A = v.A*3 + d.A, B = d.B (order-sensitive, same length as the delta)
+	MMax                      // strings: the greater of value and delta, returned AS IS (no copy; commutative)
 	numMergeKinds
 )
 
-var mergeNames = [...]string{"default", "muladd", "concat", "mix", "recsum", "recmix"}
+var mergeNames = [...]string{"default", "muladd", "concat", "mix", "recsum", "recmix", "max"}
 
 func (m MergeKind) String() string { return mergeNames[m] }
 
@@ -211,6 +212,8 @@ func mergeBytes(k Kind, mk MergeKind, cur, delta string) string {
 			return cur + delta
 		case MMix:
 			return mixString(cur, delta)
+		case MMax:
+			return maxString(cur, delta)
 		}
 		return delta
 	case KRecord:
@@ -236,7 +239,16 @@ func mergeBytes(k Kind, mk MergeKind, cur, delta string) string {
 // mergeChangesLen reports whether a merge on this column can produce a result
 // whose length differs from the delta's (the trigger class of known finding F15).
 func mergeChangesLen(k Kind, mk MergeKind) bool {
-	return (k == KString && mk == MConcat) || (k == KRecord && mk == MRecSum)
+	return (k == KString && (mk == MConcat || mk == MMax)) || (k == KRecord && mk == MRecSum)
+}
+
+// maxString returns one of its arguments unchanged (a merge function that hands
+// the delta back as is must not make the stored value alias the transaction buffer).
+func maxString(v, d string) string {
+	if d > v {
+		return d
+	}
+	return v
 }
 
 // ColSpec describes one column of a schema.
@@ -344,6 +356,8 @@ func newColumn(cs ColSpec) column.Column {
 			return column.ForString(column.WithMerge(func(v, d string) string { return v + d }))
 		case MMix:
 			return column.ForString(column.WithMerge(mixString))
+		case MMax:
+			return column.ForString(column.WithMerge(maxString))
 		}
 		return column.ForString()
 	case KEnum:
